@@ -168,3 +168,76 @@ package nfa
 //@   requires wfBT(b) && b.nfa != nil && stampsOK(state) && len(haystack) <= 140737488355328
 //@   modifies state.*, state.Visited[*]
 //@   ensures stampsOK(state)
+
+// ---- slot table: capture slots recycled between searches (C13, C03, C07) ----
+
+//@ spec func wfST(st *SlotTable) bool = st != nil && 0 <= st.slotsPerState && st.slotsPerState <= 65536 && 0 <= st.activeSlots && st.activeSlots <= st.slotsPerState && 0 <= st.numStates && st.numStates <= 16777216 && off(st.table) == 0 && (st.table == nil || (st.slotsPerState > 0 && st.numStates > 0 && len(st.table) == st.numStates * st.slotsPerState + st.slotsPerState && st.scratchOffset == st.numStates * st.slotsPerState))
+
+//@ func (*SlotTable).ForState
+//@   props C13 C03 C07
+//@   requires wfST(st) && int(sid) < st.numStates
+//@   ensures result != nil ==> len(result) == st.activeSlots && base(result) == base(st.table) && off(result) == int(sid) * st.slotsPerState
+//@   ensures (st.table != nil && st.activeSlots != 0) ==> result != nil
+
+//@ func (*SlotTable).ForStateUnchecked
+//@   props C13 C03 C07
+//@   requires wfST(st) && int(sid) < st.numStates && (st.table != nil || st.activeSlots == 0)
+//@   ensures result != nil ==> len(result) == st.activeSlots && base(result) == base(st.table) && off(result) == int(sid) * st.slotsPerState
+//@   ensures (st.table != nil && st.activeSlots != 0) ==> result != nil
+
+//@ func (*SlotTable).SetActiveSlots
+//@   props C13 C07
+//@   requires st != nil ==> wfST(st)
+//@   modifies st.activeSlots
+//@   ensures st != nil ==> wfST(st) && st.activeSlots == max(0, min(n, st.slotsPerState))
+
+//@ func (*SlotTable).SetSlot
+//@   props C13 C03 C07
+//@   requires wfST(st) && int(sid) < st.numStates
+//@   modifies st.table[*]
+//@   ensures (0 <= slotIndex && slotIndex < st.activeSlots && st.table != nil) ==> st.table[int(sid) * st.slotsPerState + slotIndex] == value
+//@   ensures forall j :: 0 <= j && j < len(st.table) && j != int(sid) * st.slotsPerState + slotIndex ==> st.table[j] == old(st.table[j])
+
+//@ func (*SlotTable).GetSlot
+//@   props C13 C03 C07
+//@   requires wfST(st) && int(sid) < st.numStates
+//@   ensures (0 <= slotIndex && slotIndex < st.activeSlots && st.table != nil) ==> result == st.table[int(sid) * st.slotsPerState + slotIndex]
+//@   ensures !(0 <= slotIndex && slotIndex < st.activeSlots && st.table != nil) ==> result == -1
+
+//@ func (*SlotTable).Reset
+//@   props C13 C03 C07
+//@   requires st != nil ==> wfST(st)
+//@   modifies st.table[*]
+//@   ensures st != nil ==> (forall j :: 0 <= j && j < len(st.table) ==> st.table[j] == -1)
+//@   loop 1: invariant -1 <= rangeindex && rangeindex <= rangelen && rangelen == len(st.table) && st != nil
+//@   loop 1: invariant forall j :: 0 <= j && j <= rangeindex ==> st.table[j] == -1
+//@   loop 1: decreases rangelen - rangeindex
+
+//@ func (*SlotTable).ResetState
+//@   props C13 C03 C07
+//@   requires wfST(st) && int(sid) < st.numStates
+//@   modifies st.table[*]
+//@   ensures st.table != nil ==> (forall j :: 0 <= j && j < st.activeSlots ==> st.table[int(sid) * st.slotsPerState + j] == -1)
+//@   ensures forall j :: 0 <= j && j < len(st.table) && (j < int(sid) * st.slotsPerState || j >= int(sid) * st.slotsPerState + st.activeSlots) ==> st.table[j] == old(st.table[j])
+//@   loop 1: invariant -1 <= rangeindex && rangeindex <= rangelen && rangelen == len(slots)
+//@   loop 1: invariant slots != nil ==> len(slots) == st.activeSlots && base(slots) == base(st.table) && off(slots) == int(sid) * st.slotsPerState && st.table != nil
+//@   loop 1: invariant slots == nil ==> rangelen == 0
+//@   loop 1: invariant forall j :: 0 <= j && j <= rangeindex ==> slots[j] == -1
+//@   loop 1: invariant forall j :: 0 <= j && j < len(st.table) && (j < int(sid) * st.slotsPerState || j >= int(sid) * st.slotsPerState + st.activeSlots) ==> st.table[j] == old(st.table[j])
+//@   loop 1: decreases rangelen - rangeindex
+
+//@ func (*SlotTable).CopySlots
+//@   props C13 C03 C07
+//@   requires wfST(st) && int(dst) < st.numStates && int(src) < st.numStates
+//@   modifies st.table[*]
+//@   ensures st.table != nil ==> (forall j :: 0 <= j && j < st.activeSlots ==> st.table[int(dst) * st.slotsPerState + j] == old(st.table[int(src) * st.slotsPerState + j]))
+//@   ensures forall j :: 0 <= j && j < len(st.table) && (j < int(dst) * st.slotsPerState || j >= int(dst) * st.slotsPerState + st.activeSlots) ==> st.table[j] == old(st.table[j])
+
+//@ func (*SlotTable).AllAbsent
+//@   props C13 C07
+//@   requires wfST(st)
+//@   ensures result != nil ==> len(result) == st.activeSlots && base(result) == base(st.table) && off(result) == st.scratchOffset
+
+// PikeVM internals are out of reach (DESIGN 7.1): only the frame of SetLongest is stated (ASSUMED).
+//@ trusted func (*PikeVM).SetLongest
+//@   modifies p.*
